@@ -57,7 +57,11 @@ def _configs(tier):
     )  # fmt: skip
     # thermostatted XL-BOMD: the resumed run must still be thermostatted (damp travels through the checkpoint)
     c["xl_damped"] = CR.default_cfg(engine="xl_damped", k=3, steps=4, seed=4, damp=5.0, out=dict(checkpoint_every=2, xyz=0))
+    # the /data stream sparser than the checkpoints (and absent): checkpoints fall on steps that add rows to the vector
+    # streams only, so "everything up to the checkpoint is on disk" has to hold for each stream on its own
+    c["bomd_sparse_data"] = CR.default_cfg(engine="bomd", steps=6, out=dict(data=5, coordinates=1, velocities=1, forces=2, xyz=0, checkpoint_every=2))
     if tier == "thorough":
+        c["bomd_no_data"] = CR.default_cfg(engine="bomd", steps=5, out=dict(data=0, coordinates=1, velocities=2, forces=1, xyz=2, checkpoint_every=2))
         c["ksa"] = CR.default_cfg(engine="ksa", k=4, steps=6, seed=2, mols=["H2O"])
         for k in range(4, 10):
             c[f"xl{k}"] = CR.default_cfg(engine="xl", k=k, steps=k + 3, seed=1, out=dict(checkpoint_every=3))
